@@ -331,19 +331,31 @@ def rich_schema(rng):
     devices = rng.sample(["bms", "inverter", "charger", "dashboard", "ecu2", "vcu", "tcu"], rng.randint(2, 6))
     out = []
     enums = []
-    for k in range(rng.randint(2, 4)):
-        items = ",\n".join(f"    V{k}_{j} = {j * rng.randint(1, 3) + (j > 0)}" for j in range(rng.randint(2, 4)))
+    ebits = {}
+    for k in range(rng.randint(2, 3)):
+        mx = rng.choice([1, 2, 3, 5, 9, 17, 100, 300])
+        vals = sorted(set([0, mx] + [rng.randint(0, mx) for _ in range(rng.randint(0, 2))]))
+        order = list(vals)
+        rng.shuffle(order)
+        items = ",\n".join(f"    V{k}_{v} = {v}" for v in order)
         out.append(f"enum En{k} {{\n{items},\n}}")
         enums.append(f"En{k}")
+        ebits[f"En{k}"] = max(1, mx.bit_length())
     structs = []
     for k in range(rng.randint(3, 7)):
         fields, bits = [], 0
         for j in range(rng.randint(1, 4)):
-            t, w = rng.choice([("u8", 8), ("i16", 16), ("u12", 12), ("f32", 32), ("i5", 5), (rng.choice(enums), 4), ("u1", 1)])
+            if rng.random() < 0.4:
+                t = rng.choice(enums)
+                w = ebits[t]
+            else:
+                t, w = rng.choice([("u8", 8), ("i16", 16), ("u12", 12), ("f32", 32), ("i5", 5), ("u1", 1)])
             if bits + w > 64:
                 break
             bits += w
             fields.append(f"    f{j} @ {j}: {t},")
+        if not fields:
+            fields = ["    f0 @ 0: u8,"]
         out.append(f"struct M{k} {{\n" + "\n".join(fields) + "\n}")
         structs.append(f"M{k}")
     for k, sname in enumerate(structs):
@@ -412,8 +424,11 @@ def run_c17(prop, tier):
             jobs.append((fresh, hs))
             meta.append((si, "fresh", hs))
         # (b) a long-lived process: unrelated parses/generations first, then the schema twice from one object
-        other = schemas[(si + 1) % len(schemas)]
-        hist = [{"op": "parse", "text": other}] + [{"op": "gen", "generator": g} for g in rng.sample(gens, 2)]
+        # the unrelated schema generated first is of the same family (same type names with different contents), so
+        # that anything cached under a name would be reused
+        other = schemas[(si + 2) % len(schemas)]
+        hist = [{"op": "parse", "text": other}] + [{"op": "gen", "generator": g} for g in gens]
+        hist += [{"op": "parse", "text": schemas[(si + 1) % len(schemas)]}] + [{"op": "gen", "generator": g} for g in rng.sample(gens, 2)]
         hist += [{"op": "parse", "text": text}]
         hist += [{"op": "gen", "generator": g, "record": True} for g in gens]
         hist += [{"op": "gen", "generator": g, "record": True} for g in gens]
